@@ -233,7 +233,11 @@ def run_impl(case):
 def measure(cls):
     e = exccat.make(cls)
     try:
-        again = type(e)(*e.args)
+        import copy
+        import glom
+        # what glom() itself does to get a fresh exception object: a GlomError is copied (copy.copy, i.e. its class's __copy__ —
+        # TypeMatchError's takes the constructor's argument order into account), anything else is re-created from its args
+        again = copy.copy(e) if isinstance(e, glom.GlomError) else type(e)(*e.args)
         rebuild = sorted(public_attrs(again).items())
     except Exception:
         rebuild = None
